@@ -45,7 +45,8 @@ class C20(Check):
     assumptions = ['segment directions come from a catalogue (%s); the segment is translated by a symbolic vector and the query point is symbolic, all in [-100, 100]' % (DIRS,),
                    'tolerance 1e-9 (absolute on squared quantities scaled by 1 + magnitude) absorbs the rounding of the concrete irrational lengths',
                    '"no closer point exists" is decided with a free parameter mu in [0,1] in the negated query, per leg']
-    outside = ['directions outside the catalogue (similarity invariance is an argument, not a proof)', '3-D', 'polylines whose legs all have zero length']
+    extra_evidence = None
+    outside = ['IEEE rounding, except for the bit-precise probe of the inclusion test on horizontal segments (thorough tier, job fp_axis)', 'directions outside the catalogue (similarity invariance is an argument, not a proof)', '3-D', 'polylines whose legs all have zero length']
     classes = {'vertical_segment': 'the segment (or a leg of the polyline) is vertical: x1 == x2'}
     budget = {'quick': 200, 'thorough': 1800}
     engine_opts = {'sqrt_mono': True, 'verify_timeout_ms': 15000}     # implied monotonicity facts between the square roots of a path (decides nearest-end comparisons)
@@ -64,10 +65,13 @@ class C20(Check):
                 continue
             js.append(dict(kind='poly', poly=k, api='proj_polyligne'))
             js.append(dict(kind='poly', poly=k, api='mapOnTrack'))
+        if tier != 'quick':
+            js.insert(0, dict(kind='fp_axis'))      # bit-precise (IEEE binary64) probe of the inclusion test on horizontal segments, decided by cvc5
         return js
 
     def patches(self, job):
-        return std_patches([GEO, COORDS], math=True, ints=False)
+        # min / max / abs of the geometry module as fork-free If-terms (same values; merges paths that differ only in which operand won)
+        return std_patches([GEO, COORDS], math=True, ints=False) + [(GEO, 'max', core.sym_max), (GEO, 'min', core.sym_min), (GEO, 'abs', core.sym_abs_term)]
 
     def _inputs(self, eng, inp, job):
         sym = inp is None
@@ -106,8 +110,54 @@ class C20(Check):
         legs = [job['d']] if job['kind'] == 'seg' else POLYS[job['poly']]
         return any(dx == 0 and dy != 0 for dx, dy in legs)
 
+    def _fp_axis(self, ctx, job):
+        """Floats are reals everywhere else in this check.  Here the two leaf kernels `cartesienne` and `projection_droite` are executed on
+        binary64 proxies (symx/fp.py) for a horizontal segment [x1, y, x2, y] and a query point whose foot lies well inside it; the lemma
+        the inclusion test of proj_segment needs there is 'the foot has the ordinate y bit-exactly'.  cvc5 searches for inputs that break
+        the lemma (a rounding hazard); each hazard input is then run through the REAL proj_segment with real floats and judged against the
+        true distance |py - y|.  A hazard on which the real function is right is not a finding (the function may not rely on the lemma)."""
+        from symx import fp
+        from symx.lifts import Patches
+        geo = sys.modules[GEO]
+        c = fp.Ctx()
+        fp.Ctx.cur = c
+        x1, y1, px, py = fp.var('x1', -100, 100, c), fp.var('y1', -100, 100, c), fp.var('px', -100, 100, c), fp.var('py', -100, 100, c)
+        w = fp.var('w', 2, 50, c)
+        x2 = x1 + w
+        c.assume(z3.And(z3.fpGEQ(px.t, (x1 + 0.5).t), z3.fpLEQ(px.t, (x2 - 0.5).t)))          # the foot is well inside the segment
+        c.assume(z3.fpGEQ(abs(y1).t, fp.fval(0.001)))
+        with Patches([(GEO, 'math', fp.FPMath())]):
+            param = geo.cartesienne([x1, y1, x2, y1])
+            xp, yp = geo.projection_droite(param, px, py)
+        ctx.reached += 1
+        found, tried, secs = [], 0, 0.0
+        block = []
+        for k in range(2):
+            ans, vals, dt = fp.solve_cvc5(c.pre + block + [z3.Not(z3.fpEQ(yp.t, y1.t))], ['x1', 'y1', 'w', 'px', 'py'], timeout_s=400)
+            secs += dt
+            if ans != 'sat' or not vals:
+                break
+            tried += 1
+            X1, Y1, X2, PX, PY = vals['x1'], vals['y1'], vals['x1'] + vals['w'], vals['px'], vals['py']
+            d, xq, yq = geo.proj_segment([X1, Y1, X2, Y1], PX, PY)
+            true = abs(PY - Y1)
+            if abs(d - true) > 1e-6 * (1 + true):
+                found.append(dict(segment=[X1, Y1, X2, Y1], query=[PX, PY], returned=[d, xq, yq], true_distance=true))
+                ctx.findings.append(dict(kind='violation', what='bit-precise probe: a horizontal segment whose foot ordinate is rounded one ulp off is answered with an end point instead of the foot',
+                                         inputs=dict(x1=X1, y1=Y1, x2=X2, px=PX, py=PY),
+                                         observed='proj_segment(%r, %r, %r) returned distance %r at (%r, %r); the foot is (%r, %r) at distance %r' % ([X1, Y1, X2, Y1], PX, PY, d, xq, yq, PX, Y1, true)))
+                break
+            block.append(z3.Not(z3.fpEQ(y1.t, fp.fval(Y1))))
+        self.extra_evidence = dict(fp_probe=dict(kernel='cartesienne + projection_droite on binary64 proxies, horizontal segment, foot inside', solver='cvc5 (SMT-LIB exported by z3, QF_FP)',
+                                                 hazard_inputs_found=tried, violations_replayed=len(found), solver_s=round(secs, 1), branch_conditions_decided=c.decided,
+                                                 note='a hazard input breaks the kernel lemma "foot ordinate == segment ordinate"; it is a finding only if the real proj_segment answers it wrongly'))
+        ctx.note = 'fp probe: %d hazard inputs, %d violations' % (tried, len(found))
+
     def path(self, ctx, job):
         eng = ctx.eng
+        if job['kind'] == 'fp_axis':
+            self._fp_axis(ctx, job)
+            return
         X, Y, px, py = self._inputs(eng, None, job)
         cls = {'vertical_segment': z3.BoolVal(self._vertical(job))}
         try:
@@ -154,6 +204,13 @@ class C20(Check):
                 return
 
     def concrete(self, job, inp):
+        if job['kind'] == 'fp_axis':
+            geo = sys.modules[GEO]
+            seg = [float(inp['x1']), float(inp['y1']), float(inp['x2']), float(inp['y1'])]
+            d, xq, yq = geo.proj_segment(seg, float(inp['px']), float(inp['py']))
+            true = abs(float(inp['py']) - float(inp['y1']))
+            v = None if abs(d - true) <= 1e-6 * (1 + true) else 'proj_segment(%r, %r, %r) returned distance %r at (%r, %r); the foot is at distance %r' % (seg, inp['px'], inp['py'], d, xq, yq, true)
+            return dict(violation=v, outputs={})
         X, Y, px, py = self._inputs(None, inp, job)
         try:
             d, xp, yp, ip = self._call(job, X, Y, px, py)
